@@ -2,8 +2,8 @@
 import itertools
 import json
 
-from extract import break_computed, break_table
-from harness import c04_tables, docs, pm, pm_corr
+from extract import break_computed, break_table, table_wrapper_props
+from harness import c04_names, c04_tables, docs, pm, pm_corr
 from vlib import sx
 from vlib.framework import PropCheck
 from vlib.paths import CORPUS
@@ -138,9 +138,10 @@ def doc_violation(values, k):
 
 class C04(PropCheck):
     id = 'C04'
-    extractors = (break_table.generate, break_computed.generate)
+    extractors = (break_table.generate, break_computed.generate, table_wrapper_props.generate)
     modules = ('WpModel.Props.C04', 'WpModel.Props.C04Trace', 'WpModel.Witness.C04', 'WpModel.Props.C04Pm2',
-               'WpModel.Witness.C04Pm2', 'WpModel.Props.C04Computed', 'WpModel.Props.C04Table')
+               'WpModel.Witness.C04Pm2', 'WpModel.Props.C04Computed', 'WpModel.Props.C04Table',
+               'WpModel.Props.C04TableGen', 'WpModel.Props.C04TableNames')
     trusted_base = (
         'modelled, not verified: block_level_page_break / avoid_page_break / force_page_break as table + fold '
         '(tables regenerated from block.py by AST and by calling the real functions)',
@@ -219,6 +220,7 @@ class C04(PropCheck):
                 sec3.add(sx.line('forces', col, v), str(bool(block.force_page_break(v, Ctx(col)))).lower())
         # tables with captions / groups / rows: where the values are read; avoid + out-of-flow boxes: nothing lost
         c04_tables.add_sections(self, run)
+        c04_names.add_sections(self, run)
 
     def classify(self, d):
         if d['section'] == 'avoid-families' and d['meta']['doc_id'] in self._avoid_known:
@@ -228,6 +230,8 @@ class C04(PropCheck):
     def judge(self, d):
         if d['section'] in c04_tables.SECTIONS:
             return c04_tables.judge(self, d)
+        if d['section'] in c04_names.SECTIONS:
+            return c04_names.judge(self, d)
         if d['section'] == 'avoid-families':
             return (f'{d["meta"]["doc_id"]}: avoided break not honoured although the unit is not the first content of '
                     f'its page: {d["model"]}; between={d["meta"]["between"]} inside={d["meta"]["inside"]}')
@@ -250,7 +254,8 @@ class C04(PropCheck):
         """Documents realising short value sequences, judged by the adjacency oracle."""
         docs.quiet()
         from weasyprint.layout import block
-        if any(f['kind'] == 'correspondence' and f['name'] in c04_tables.SECTIONS for f in failures):
+        if any((f['kind'] == 'correspondence' and f['name'] in c04_tables.SECTIONS) or f['kind'] in ('proof', 'extraction')
+               for f in failures):
             found = c04_tables.search(self, run, failures)
             if found:
                 return found
@@ -313,6 +318,9 @@ class C04(PropCheck):
         meta = inp.get('meta') if isinstance(inp.get('meta'), dict) else {}
         doc_id = str(meta.get('doc_id', ''))
         handled, what = c04_tables.replay(self, meta)
+        if handled:
+            return what
+        handled, what = c04_names.replay(self, meta)
         if handled:
             return what
         if doc_id.startswith(('avoid-', 'brk-')):
@@ -602,7 +610,12 @@ MANIFEST = {
             'after the whole table, captions included, and never acts inside it (C04Table.forced_before_table, '
             'inside_independent), tied to the real cascade + build + block_level_page_break on generated documents and '
             'to the rendered pages (C04Table.tableObs_sound); honouring an avoided break loses nothing '
-            '(C04Table.avoid_conserve_sound, documents with out-of-flow boxes around the earlier break point).',
+            '(C04Table.avoid_conserve_sound, documents with out-of-flow boxes around the earlier break point). The '
+            'tuple TABLE_WRAPPER_BOX_PROPERTIES and the graph of the real build on it are regenerated each run '
+            '(Gen/TableWrapperProps; C04TableGen.wrapTableGen_eq_spec stops compiling when break-before / -after leave the '
+            'tuple); named pages around tables: the start name of a table is its first top caption\'s '
+            '(C04TableNames.table_start_caption), tied to the real block_level_page_name and to the page types of the '
+            'rendered documents (C04TableNames.names_sound).',
     'note': 'Trusted: Lean kernel, the AST/graph translators, the harness mapping box classes to block-parallel flags. '
             'avoid_wins is proved with the hypothesis that no `column` value meets outside a multi-column container '
             '(known finding column-hides-avoid). Document-level rendering is used only to search for failing inputs.',
